@@ -27,6 +27,10 @@ type uploadCase struct {
 	Size   int    `json:"size"`
 	Chunk  int    `json:"chunk"`  // caller's write size (0 = single write)
 	Caller string `json:"caller"` // "stop-on-error" | "ignore-errors"
+	// CancelAfter: the caller cancels the request context once it has written
+	// this many bytes (-1 = never; Size = after the last Write, before Close).
+	CancelAfter int  `json:"cancel_after"`
+	cancelSet   bool // matrix construction only
 }
 
 type event struct {
@@ -387,7 +391,13 @@ func execUpload(c *fw.Ctx, cs uploadCase) {
 		for i := range data {
 			data[i] = byte('a' + i%26)
 		}
+		cancelled := false
 		for res.written < cs.Size {
+			if cs.CancelAfter >= 0 && res.written >= cs.CancelAfter && !cancelled {
+				cancelled = true
+				rec.add("caller", "cancel", fmt.Sprint(res.written))
+				cancel()
+			}
 			n := chunk
 			if cs.Size-res.written < n {
 				n = cs.Size - res.written
@@ -404,6 +414,10 @@ func execUpload(c *fw.Ctx, cs uploadCase) {
 					break
 				}
 			}
+		}
+		if cs.CancelAfter >= 0 && !cancelled {
+			rec.add("caller", "cancel", fmt.Sprint(res.written))
+			cancel()
 		}
 		rec.add("caller", "close-call", "")
 		res.closeErr = w.Close()
@@ -469,7 +483,7 @@ wait:
 	}
 	c.JournalDone()
 	c.Eval(1)
-	c.Distinct(fmt.Sprintf("%s|%d|k=%s|%s|size=%d|chunk=%d|%s", cs.Script, cs.Status, kClass(cs), cs.After, cs.Size, cs.Chunk, cs.Caller))
+	c.Distinct(fmt.Sprintf("%s|%d|k=%s|%s|size=%d|chunk=%d|%s|cancel=%d", cs.Script, cs.Status, kClass(cs), cs.After, cs.Size, cs.Chunk, cs.Caller, cs.CancelAfter))
 	cellKey := fmt.Sprintf("upload|%s|status=%d|%s", cs.Script, cs.Status, cs.After)
 	wit := func() interface{} {
 		return map[string]interface{}{"case": cs, "events": rec.dump(), "written": res.written, "write_errors": res.writeErrs, "first_write_error": res.firstWErr, "close_error": fw.ErrString(res.closeErr)}
@@ -583,7 +597,18 @@ func uploadMatrix(thorough bool) []uploadCase {
 			for _, caller := range []string{"stop-on-error", "ignore-errors"} {
 				add := func(cs uploadCase) {
 					cs.Size, cs.Chunk, cs.Caller = size, chunk, caller
+					if cs.CancelAfter == 0 && !cs.cancelSet {
+						cs.CancelAfter = -1
+					}
 					l = append(l, cs)
+				}
+				// the caller cancels the context at a chosen point of an otherwise healthy upload
+				for _, ca := range []int{0, size / 2, size} {
+					for _, st := range []int{201, 403} {
+						add(uploadCase{Script: "read-all-then-answer", Status: st, ReadK: -1, After: "close", CancelAfter: ca, cancelSet: true})
+					}
+					add(uploadCase{Script: "answer-before-reading", Status: 201, After: "drain", CancelAfter: ca, cancelSet: true})
+					add(uploadCase{Script: "read-k-then-answer", Status: 201, ReadK: size / 2, After: "hold", CancelAfter: ca, cancelSet: true})
 				}
 				for _, st := range []int{201, 204, 403, 507} {
 					for _, after := range []string{"close", "drain", "hold"} {
